@@ -75,11 +75,16 @@ class GF:
         raise Fail(f'operation {t.__name__} on data-dependent integers is not GF(2)-affine')
 
     def abs_cmp(self, it, op, a, b, n):
-        va, vb = as_vec(a), as_vec(b)
-        if va is None or vb is None:
+        def rng(x):
+            if isinstance(x, K) and isinstance(x.v, int) and not isinstance(x.v, bool) and x.v < 0:
+                return (x.v, x.v)           # a negative constant: an affine integer is never negative
+            v_ = as_vec(x)
+            if v_ is None:
+                return None
+            return (v_.cval(), v_.cval()) if v_.is_const() else (0, (1 << v_.width()) - 1)
+        ra, rb = rng(a), rng(b)
+        if ra is None or rb is None:
             return None
-        ra = (va.cval(), va.cval()) if va.is_const() else (0, (1 << va.width()) - 1)
-        rb = (vb.cval(), vb.cval()) if vb.is_const() else (0, (1 << vb.width()) - 1)
         t = type(op)
         (alo, ahi), (blo, bhi) = ra, rb
         dec = {ast.Lt: (ahi < blo, alo >= bhi), ast.LtE: (ahi <= blo, alo > bhi), ast.Gt: (alo > bhi, ahi <= blo), ast.GtE: (alo >= bhi, ahi < blo),
@@ -257,6 +262,8 @@ def ext_hook(it):
                     raise RaiseEx('error', f'struct.error: argument out of range for {fmt!r}')
                 return GFBytes(args[1].vec, nb, 'little' if fmt[0] == '<' else 'big')
             raise Fail(f'struct.pack({fmt!r}) of a data-dependent integer')
+        if dotted in ('operator.index', 'operator.__index__') and len(args) == 1 and isinstance(args[0], GF):
+            return args[0]
         if dotted in ('struct.iter_unpack', 'struct.unpack', 'struct.unpack_from') and len(args) >= 2 and isinstance(args[0], K) and isinstance(args[1], SymBytes):
             # the input cut into unsigned integers of 1 / 2 / 4 / 8 bytes in the format's byte order
             import re as _re
